@@ -2,6 +2,7 @@
 #include "diagnostics/stacktrace.h"
 #include "d_array.h"
 #include "d_string.h"
+#include "d_scalar.h"
 #include "diagnostics/d_stacktrace.h"
 
 #include <optional>
@@ -11,8 +12,28 @@
 #include <iomanip>
 #endif // DF__SQF_RUNTIME__ASSEMBLY_DEBUG_ON_EXECUTE
 
+namespace
+{
+    // The print mode of numbers (toFixed) is state of the runtime, not of the process: it is
+    // installed on the executing thread while this runtime executes and taken back afterwards.
+    struct decimals_guard
+    {
+        sqf::runtime::runtime& m_runtime;
+        int m_outer;
+        decimals_guard(sqf::runtime::runtime& r) : m_runtime(r), m_outer(sqf::types::d_scalar::decimals())
+        {
+            sqf::types::d_scalar::set_decimals(m_runtime.scalar_decimals());
+        }
+        ~decimals_guard()
+        {
+            m_runtime.scalar_decimals(sqf::types::d_scalar::decimals());
+            sqf::types::d_scalar::set_decimals(m_outer);
+        }
+    };
+}
 static sqf::runtime::runtime::result execute_do(sqf::runtime::runtime& runtime, size_t exit_after)
 {
+    decimals_guard decimals(runtime);
     auto& context_active = runtime.context_active();
     auto& runtime_error = runtime.__runtime_error();
     // Handles a raised runtime error: hands it to the nearest frame that can recover,
@@ -314,6 +335,7 @@ sqf::runtime::runtime::result sqf::runtime::runtime::execute(sqf::runtime::runti
         if (m_run_atomic.compare_exchange_weak(expected, true, std::memory_order::memory_order_seq_cst, std::memory_order::memory_order_seq_cst))
         {
             m_is_exit_requested = false;
+            decimals_guard decimals(*this);
             m_run_timestamp = std::chrono::system_clock::now();
             m_is_halt_requested = false;
             // Without a script there is nothing to leave
@@ -371,6 +393,7 @@ sqf::runtime::runtime::result sqf::runtime::runtime::execute(sqf::runtime::runti
         if (m_run_atomic.compare_exchange_weak(expected, true, std::memory_order::memory_order_seq_cst, std::memory_order::memory_order_seq_cst))
         {
             m_is_exit_requested = false;
+            decimals_guard decimals(*this);
             m_run_timestamp = std::chrono::system_clock::now();
             m_is_halt_requested = false;
             m_state = state::running;
@@ -485,6 +508,7 @@ sqf::runtime::runtime::result sqf::runtime::runtime::execute(sqf::runtime::runti
         if (m_run_atomic.compare_exchange_weak(expected, true, std::memory_order::memory_order_seq_cst, std::memory_order::memory_order_seq_cst))
         {
             m_is_exit_requested = false;
+            decimals_guard decimals(*this);
             m_run_timestamp = std::chrono::system_clock::now();
             m_is_halt_requested = false;
             m_state = state::running;
@@ -526,6 +550,7 @@ sqf::runtime::runtime::result sqf::runtime::runtime::execute(sqf::runtime::runti
         if (m_run_atomic.compare_exchange_weak(expected, true, std::memory_order::memory_order_seq_cst, std::memory_order::memory_order_seq_cst))
         {
             m_is_exit_requested = false;
+            decimals_guard decimals(*this);
             m_run_timestamp = std::chrono::system_clock::now();
             m_is_halt_requested = false;
             bool success;
